@@ -15,3 +15,25 @@ def plan(tier, ctx):
     a = cbmc_argv(src, 'h_lock_held_spins', unwind=4, base=False, extra=['--drop-unused-functions', '--trace', '--no-malloc-may-fail', '--no-unwinding-assertions'])
     jobs.append(Job('e1.h_lock_held_spins', a, 'hold', 120, meta={'engine': 'E1 cbmc-src', 'bounds': '3 spin iterations, arbitrary word with ticket!=users'}))
     return jobs
+
+
+import sys
+sys.path.insert(0, VERIF + '/e2')
+import fvm
+_e1_plan = plan
+INFO['functions'] += ['(E2) fiber_spinlock_lock/trylock/unlock under contention']
+INFO['bounds'] += ' | E2: 2-3 contenders (lock,lock[,lock|trylock]), initial ticket in {0, 2^32-2, 2^32-1} (wrap during the run), spin bound 1, SC and TSO'
+INFO['assumptions'] += ['x86-TSO mapping of atomics; 32-bit stores into the 64-bit lock word are modelled as atomic read-modify-write of the containing cell (stronger than TSO for that store)']
+
+
+def plan(tier, ctx):
+    S = {'spin': 1}
+    src = ['fiber_spinlock.c']
+    j = _e1_plan(tier, ctx)
+    j += fvm.config('C18', 'spin_2', 'spin.c', 2, 4, 'sc', srcs=src, spec=S, bounds='2 lockers')
+    j += fvm.config('C18', 'spin_2', 'spin.c', 2, 4, 'tso', srcs=src, spec=S, bounds='2 lockers, x86-TSO')
+    j += fvm.config('C18', 'spin_2_try', 'spin.c', 3, 4, 'sc', srcs=src, defines=['T3_TRY'], spec=S, bounds='2 lockers + 1 trylock', timeout=900)
+    if tier == 'thorough':
+        j += fvm.config('C18', 'spin_3', 'spin.c', 3, 4, 'sc', srcs=src, defines=['T3_LOCK'], spec=S, bounds='3 lockers', timeout=1800, required=False)
+        j += fvm.config('C18', 'spin_2_try', 'spin.c', 3, 4, 'tso', srcs=src, defines=['T3_TRY'], spec=S, bounds='2 lockers + trylock, TSO', timeout=1800, required=False)
+    return j
